@@ -2,6 +2,7 @@
 (sequential part; the interleavings of SubjectThreads are the LTS part)."""
 import random
 
+from .. import injgen as ig
 from .. import subjgen as sg
 from ..runner import Prop
 
@@ -9,7 +10,7 @@ from ..runner import Prop
 class C06(Prop):
     pid = "C06"
     lean_module = "RxModel.Props.C06"
-    extra_modules = ("RxModel.Props.C06T",)
+    extra_modules = ("RxModel.Props.C06T", "RxModel.Props.C06S")
     design_ref = "DESIGN.md §6 C06"
     rule = ("bounded-exhaustive: every sequence (length <= 4 for all five subject "
             "types; thorough: Subject <= 5) over the 15-letter alphabet {subscribe with script none | subscribe-in-"
@@ -17,7 +18,12 @@ class C06(Prop):
             "next, error, complete, retain, unsubscribe-subject, clone (later ops go through the newest clone)} "
             "creating at most 3 subscribers; plus random histories of length 6..24 over up to 6 subscribers with "
             "random scripts and random clone routing, all five subject types. Non-trivial = at least one "
-            "delivery; distinct = distinct (flavor, history) text.")
+            "delivery; distinct = distinct (flavor, history) text. Suite `inject` (SubjectThreads, step model "
+            "Conc/SubjectSteps.lean): 0-3 subscribers, every prefix of <= 2 (thorough: 3) plain operations, then "
+            "`inj k A B` = the first k critical sections of A, all of B, the rest of A, replayed on the real code "
+            "through hook H2, for every preemptible A in {next, error, complete, unsubscribe, len+is_empty}, every "
+            "k in 1..sections(A)-1 and every B in {next, error, complete, unsubscribe, subscribe, unsub u, retain, "
+            "size}, then an aftermath (size, next); plus random histories of 6..20 events with several `inj`.")
     assumptions = [
         "single thread; no re-entrant emission from a callback (excluded by the property)",
         "a probe unsubscribing ITSELF through its handle inside its own callback is outside the property: "
@@ -27,7 +33,9 @@ class C06(Prop):
     ]
     modelled_not_verified = ("src/subject.rs, src/subscriber.rs, src/observer.rs(impl_rc_observer): hand "
                              "transcription (Subject/Subject.lean) validated on the generated histories; "
-                             "lock programs of SubjectThreads operations: Conc/Footprint.lean, compared with the H2 trace")
+                             "lock programs of SubjectThreads operations: Conc/Footprint.lean, compared with the H2 trace; "
+                             "critical sections of SubjectThreads with data: Conc/SubjectSteps.lean, validated by "
+                             "one-preemption replays on the real code (suite inject)")
 
     def cases(self, tier, seed):
         rng = random.Random(seed)
@@ -54,11 +62,16 @@ class C06(Prop):
                     out.append(c)
         except Exception as ex:               # pragma: no cover
             print(f"note: C06 skips the lock-level cases: {ex}")
+        # one-preemption interleavings of two operations replayed on the real SubjectThreads (hook H2) and on
+        # the step model of Props/C06S.lean
+        out += ig.cases(tier, seed)
         return out
 
     def oracle(self, case, lines, model_lines=None):
         if case.suite == "locks":
             return self.lock_oracle(case, lines)
+        if case.suite == "inject":
+            return ig.oracle(case, lines)
         return sg.check_history(case, lines, behavior=False)
 
     def lock_oracle(self, case, lines):
@@ -82,15 +95,21 @@ class C06(Prop):
         return None
 
     def nontrivial(self, case, lines):
+        if case.suite == "inject":
+            return ig.nontrivial(case, lines)
         return any(not b.startswith("o= ") for b in lines.values())
 
     def signature(self, case, failure):
+        if case.suite == "inject":
+            return ig.signature(case, failure)
         return f"{failure['kind']}|{case.suite}|{case.flavor}"
 
     def shrink_candidates(self, case):
         if case.suite == "locks":
             from .c10 import PROP as c10
             return c10.shrink_candidates(case)
+        if case.suite == "inject":
+            return ig.shrink_candidates(case)
         return sg.shrink_candidates(case)
 
     def extra_coverage(self, cases, impl):
